@@ -191,13 +191,17 @@ def RuleSafe (fx : Fixes) (r : Rule) : Prop := ∀ a, a ∈ r.alts → AltSafe f
 
 theorem ruleStep_np {cx : Ctx} {rule : Rule} (hs : RuleSafe cx.fx rule) (st : XSt) : NoPanic (ruleStep cx rule st) := by
   unfold ruleStep
-  apply NoPanic.ite (fun _ => NoPanic.err _)
-  intro _
-  apply NoPanic.ite (fun _ => NoPanic.err _)
-  intro _
-  split
-  · exact altSteps_np hs _ _
-  · exact altSteps_np hs _ _
+  apply NoPanic.bind
+  · unfold ruleCheck
+    apply NoPanic.ite (fun _ => NoPanic.err _)
+    intro _
+    apply NoPanic.ite (fun _ => NoPanic.err _)
+    intro _
+    exact NoPanic.ite (fun _ => NoPanic.err _) (fun _ => NoPanic.ok _)
+  · intro _ _
+    split
+    · exact altSteps_np hs _ _
+    · exact altSteps_np hs _ _
 
 theorem ruleSteps_np {cx : Ctx} : ∀ {rules : List Rule}, (∀ r, r ∈ rules → RuleSafe cx.fx r) →
     ∀ st : XSt, NoPanic (ruleSteps cx rules st)
